@@ -13,12 +13,13 @@
 //	work.NewRequest + ProcessRangeRequest.StartBlock()/StopBlock()   (what tier 2 recomputes)
 //
 // on real pbsubstreams.Modules values (stores with chosen initial blocks in every module order, an output
-// mapper reading all of them), cursors built with bstream.Cursor.ToOpaque(), a resolver stub returning every
+// module reading all of them: a mapper, or — case token s<n> — a store, which these entry points accept although
+// Request.Validate does not; slice T1 uses mapper outputs only), cursors built with bstream.Cursor.ToOpaque(), a resolver stub returning every
 // answer shape.
 //
 // Case line (read by lean/Driver/C12.lean):
 //
-//	P <p|d> <seg> <fsb> <start> <stop> <final|-> <head|-> <outInit> <stores|-> <cursor> <resolver> lay=<n>
+//	P <p|d> <seg> <fsb> <start> <stop> <final|-> <head|-> <outInit | s<outInit>> <stores|-> <cursor> <resolver> lay=<n>
 package main
 
 import (
@@ -126,6 +127,7 @@ type caseT struct {
 	final    int64 // -1 unknown
 	head     int64 // -1 unknown
 	outInit  uint64
+	outStore bool // the output module is a store (case token s<n>)
 	stores   []uint64
 	cur      cursorT
 	res      resolverT
@@ -160,6 +162,9 @@ func (c *caseT) line() string {
 	sb.WriteByte(' ')
 	sb.WriteString(optS(c.head))
 	sb.WriteByte(' ')
+	if c.outStore {
+		sb.WriteByte('s')
+	}
 	sb.WriteString(strconv.FormatUint(c.outInit, 10))
 	sb.WriteByte(' ')
 	if len(c.stores) == 0 {
@@ -201,6 +206,10 @@ func parseCase(line string) (*caseT, bool) {
 	c.stop = common.Atou(w[5])
 	c.final = optP(w[6])
 	c.head = optP(w[7])
+	if strings.HasPrefix(w[8], "s") {
+		c.outStore = true
+		w[8] = w[8][1:]
+	}
 	c.outInit = common.Atou(w[8])
 	if w[9] != "-" {
 		for _, s := range strings.Split(w[9], ",") {
@@ -260,7 +269,7 @@ func mapMod(name string, init uint64, inputs ...*pbsubstreams.Module_Input) *pbs
 
 // layout bits: 1 = output module first in the list (else last); 2 = an unreachable store with initial
 // block 0 in the middle; 4 = an unreachable mapper at the front.  The model never sees the layout.
-func buildModules(stores []uint64, outInit uint64, lay int) *pbsubstreams.Modules {
+func buildModules(stores []uint64, outInit uint64, outStore bool, lay int) *pbsubstreams.Modules {
 	var mods []*pbsubstreams.Module
 	inputs := []*pbsubstreams.Module_Input{srcInput()}
 	var storeMods []*pbsubstreams.Module
@@ -270,6 +279,10 @@ func buildModules(stores []uint64, outInit uint64, lay int) *pbsubstreams.Module
 		inputs = append(inputs, storeInput(name))
 	}
 	om := mapMod("out", outInit, inputs...)
+	if outStore { // accepted by BuildRequestDetails / NewOutputModuleGraph / BuildTier1RequestPlan / TestBlocks (only Request.Validate refuses it)
+		om = storeMod("out", outInit)
+		om.Inputs = inputs
+	}
 	if lay&4 != 0 {
 		mods = append(mods, mapMod("unrelated_map", 0, srcInput()))
 	}
@@ -310,6 +323,9 @@ func graphFor(c *caseT) *graphEntry {
 	}
 	kb.WriteString(strconv.FormatUint(c.fsb, 10))
 	kb.WriteByte('/')
+	if c.outStore {
+		kb.WriteByte('s')
+	}
 	kb.WriteString(strconv.FormatUint(c.outInit, 10))
 	kb.WriteByte('/')
 	kb.WriteString(strconv.Itoa(c.lay))
@@ -321,7 +337,7 @@ func graphFor(c *caseT) *graphEntry {
 	if e, ok := graphCache.Load(key); ok {
 		return e.(*graphEntry)
 	}
-	mods := buildModules(c.stores, c.outInit, c.lay)
+	mods := buildModules(c.stores, c.outInit, c.outStore, c.lay)
 	g, err := exec.NewOutputModuleGraph("out", c.prod, mods, c.fsb)
 	e, _ := graphCache.LoadOrStore(key, &graphEntry{mods, g, err})
 	return e.(*graphEntry)
@@ -534,27 +550,42 @@ func derive(c *caseT, res *result) *derived {
 	if dv.hasS || dv.hasW {
 		dv.bp = p.BackprocessSegmenter()
 	}
+	// required stores: the ancestor stores and, when it is a store, the output module (its own, later, store stage)
+	type smod struct {
+		name string
+		raw  uint64
+	}
+	var smods []smod
+	for i, raw := range c.stores {
+		smods = append(smods, smod{fmt.Sprintf("s%d", i), raw})
+	}
+	firstStage := len(smods) // the first store stage is the layer of ancestor stores, or the output store alone
+	if c.outStore {
+		smods = append(smods, smod{"out", c.outInit})
+		if firstStage == 0 {
+			firstStage = 1
+		}
+	}
 	if dv.hasS {
 		ks := p.StoresSegmenter()
 		stageInit := uint64(0)
-		for i := range c.stores {
-			in := inits[fmt.Sprintf("s%d", i)]
+		for i := 0; i < firstStage; i++ {
+			in := inits[smods[i].name]
 			if i == 0 || in < stageInit {
 				stageInit = in
 			}
 		}
 		dv.stageIn = stageInit
 		dv.ss = unitsOf(p, ks, ks.WithInitialBlock(stageInit))
-		for i, raw := range c.stores {
-			name := fmt.Sprintf("s%d", i)
-			dv.ms = append(dv.ms, stageUnits{name, raw, unitsOf(p, ks, p.ModuleSegmenter(inits[name]))})
+		for _, sm := range smods {
+			dv.ms = append(dv.ms, stageUnits{sm.name, sm.raw, unitsOf(p, ks, p.ModuleSegmenter(inits[sm.name]))})
 		}
 	} else {
-		for i, raw := range c.stores {
-			dv.ms = append(dv.ms, stageUnits{fmt.Sprintf("s%d", i), raw, nil})
+		for _, sm := range smods {
+			dv.ms = append(dv.ms, stageUnits{sm.name, sm.raw, nil})
 		}
 	}
-	if dv.hasW {
+	if dv.hasW && !c.outStore { // NewStages has no map stage for a store output, and no reader exists for it
 		ks := p.WriteOutSegmenter()
 		dv.mp = unitsOf(p, ks, ks.WithInitialBlock(inits["out"]))
 		dv.rd = p.ReadOutSegmenter(inits["out"])
@@ -634,7 +665,11 @@ func classifyResolve(c *caseT) string {
 func classifyHandoff(c *caseT, start uint64) string {
 	stateRequired := false
 	var lowest uint64
-	for _, s := range c.stores {
+	req := c.stores
+	if c.outStore {
+		req = append(append([]uint64{}, c.stores...), c.outInit)
+	}
+	for _, s := range req {
 		if s < start && (!stateRequired || s < lowest) {
 			stateRequired, lowest = true, s
 		}
@@ -832,11 +867,18 @@ func oracle(c *caseT, res *result, dv *derived, line string, co *caseOut) {
 	// (b) stores built exactly up to the hand-off
 	inits := res.g.ModulesInitBlocks()
 	var wantStores *block.Range
-	if len(c.stores) > 0 {
+	var reqNames []string
+	for i := range c.stores {
+		reqNames = append(reqNames, fmt.Sprintf("s%d", i))
+	}
+	if c.outStore {
+		reqNames = append(reqNames, "out")
+	}
+	if len(reqNames) > 0 {
 		low := uint64(0)
 		need := false
-		for i := range c.stores {
-			in := inits[fmt.Sprintf("s%d", i)]
+		for i, name := range reqNames {
+			in := inits[name]
 			if i == 0 || in < low {
 				low = in
 			}
@@ -905,7 +947,14 @@ func oracle(c *caseT, res *result, dv *derived, line string, co *caseOut) {
 		}
 	}
 	if dv.hasS {
-		checkUnits("stores stage", 0, dv.stageIn, dv.ss, p.BuildStores.StartBlock, handoff, true)
+		if dv.stageIn < handoff {
+			checkUnits("stores stage", 0, dv.stageIn, dv.ss, dv.stageIn, handoff, true)
+		} else if len(dv.ss) != 0 {
+			fail("units-for-late-store", "first store stage (initial block %d ≥ handoff %d) has units", dv.stageIn, handoff)
+		}
+		if !c.outStore && dv.stageIn != p.BuildStores.StartBlock {
+			fail("build-stores", "BuildStores starts at %d, the store stage at %d", p.BuildStores.StartBlock, dv.stageIn)
+		}
 		for _, m := range dv.ms {
 			in := inits[m.name]
 			if in < handoff {
@@ -915,7 +964,7 @@ func oracle(c *caseT, res *result, dv *derived, line string, co *caseOut) {
 			}
 		}
 	}
-	if dv.hasW {
+	if dv.hasW && !c.outStore {
 		oi := inits["out"]
 		from := p.WriteExecOut.StartBlock
 		if oi > from {
@@ -984,6 +1033,9 @@ func evalCase(c *caseT, slice string) *caseOut {
 			kind += "+linear"
 		}
 		co.counts = append(co.counts, "path "+classifyHandoff(c, res.d.ResolvedStartBlockNum), "resolve "+classifyResolve(c), slice+" ok", kind)
+		if c.outStore {
+			co.counts = append(co.counts, "output-is-store ok", "output-is-store "+kind)
+		}
 		co.nontrivial = res.p.BuildStores != nil || res.p.WriteExecOut != nil || res.undo != nil
 		oracle(c, res, dv, line, co)
 	}
@@ -1043,21 +1095,22 @@ func doCase(c *caseT, slice string) {
 // ------------------------------------------------------------------ generators
 
 type modCfg struct {
-	stores []uint64
-	out    uint64
+	stores   []uint64
+	out      uint64
+	outStore bool
 }
 
 // all ordered tuples of ≤3 store initial blocks and an output initial block in 0..max
 func allModCfgs(max uint64) []modCfg {
 	var res []modCfg
 	for o := uint64(0); o <= max; o++ {
-		res = append(res, modCfg{nil, o})
+		res = append(res, modCfg{stores: nil, out: o})
 		for a := uint64(0); a <= max; a++ {
-			res = append(res, modCfg{[]uint64{a}, o})
+			res = append(res, modCfg{stores: []uint64{a}, out: o})
 			for b := uint64(0); b <= max; b++ {
-				res = append(res, modCfg{[]uint64{a, b}, o})
+				res = append(res, modCfg{stores: []uint64{a, b}, out: o})
 				for cc := uint64(0); cc <= max; cc++ {
-					res = append(res, modCfg{[]uint64{a, b, cc}, o})
+					res = append(res, modCfg{stores: []uint64{a, b, cc}, out: o})
 				}
 			}
 		}
@@ -1080,7 +1133,7 @@ func smallGridRequests(m modCfg, lay int, f func(*caseT)) {
 						stop = uint64(si)
 					}
 					for final := int64(-1); final <= 20; final++ {
-						f(&caseT{prod: prod, seg: seg, start: start, stop: stop, final: final, head: -1, outInit: m.out, stores: m.stores, lay: lay})
+						f(&caseT{prod: prod, seg: seg, start: start, stop: stop, final: final, head: -1, outInit: m.out, outStore: m.outStore, stores: m.stores, lay: lay})
 					}
 				}
 			}
@@ -1089,7 +1142,7 @@ func smallGridRequests(m modCfg, lay int, f func(*caseT)) {
 }
 
 func randSmallRequest(rng *common.Rng, m modCfg) *caseT {
-	c := &caseT{prod: rng.Bool(), seg: uint64(rng.Range(2, 6)), start: int64(rng.Range(0, 16)), final: int64(rng.Range(-1, 20)), head: -1, outInit: m.out, stores: m.stores, lay: rng.Intn(8)}
+	c := &caseT{prod: rng.Bool(), seg: uint64(rng.Range(2, 6)), start: int64(rng.Range(0, 16)), final: int64(rng.Range(-1, 20)), head: -1, outInit: m.out, outStore: m.outStore, stores: m.stores, lay: rng.Intn(8)}
 	if !rng.Chance(1, 4) {
 		c.stop = uint64(rng.Range(int(c.start)+1, 18))
 	}
@@ -1138,6 +1191,7 @@ func randLargeCase(rng *common.Rng) *caseT {
 	} else {
 		c.outInit = nearBoundary(rng, c.seg, 40, c.stores...)
 	}
+	c.outStore = rng.Chance(1, 4)
 	anchors := append([]uint64{c.outInit}, c.stores...)
 	st := nearBoundary(rng, c.seg, 45, anchors...)
 	if st < c.outInit && rng.Chance(4, 5) {
@@ -1317,12 +1371,15 @@ func main() {
 
 	// A1: every request of the small grid × a seeded selection of module configurations (every 0/1-store
 	// configuration with a low output block is always in)
-	nCfg, perCfg, nLarge, nCursor, nEdge, nTier1 := 30, 8, 250000, 150000, 150000, 3000
+	nCfg, perCfg, nLarge, nCursor, nEdge, nTier1 := 28, 8, 200000, 120000, 120000, 2500
 	if o.Thorough() {
 		nCfg, perCfg, nLarge, nCursor, nEdge, nTier1 = 150, 30, 1500000, 700000, 700000, 20000
 	}
 	var sel []modCfg
-	sel = append(sel, modCfg{nil, 0}, modCfg{[]uint64{0}, 0}, modCfg{[]uint64{5}, 2}, modCfg{[]uint64{12, 3}, 0}, modCfg{[]uint64{3, 12}, 0}, modCfg{[]uint64{9, 4, 11}, 1})
+	sel = append(sel, modCfg{stores: nil, out: 0}, modCfg{stores: []uint64{0}, out: 0}, modCfg{stores: []uint64{5}, out: 2}, modCfg{stores: []uint64{12, 3}, out: 0},
+		modCfg{stores: []uint64{3, 12}, out: 0}, modCfg{stores: []uint64{9, 4, 11}, out: 1},
+		// output modules of kind store: alone, below / above its ancestor stores
+		modCfg{nil, 3, true}, modCfg{nil, 0, true}, modCfg{[]uint64{7}, 2, true}, modCfg{[]uint64{2, 9}, 5, true})
 	r1 := rng.Fork()
 	for len(sel) < nCfg {
 		n := r1.Intn(4)
@@ -1335,6 +1392,7 @@ func main() {
 		} else {
 			m.out = uint64(r1.Range(0, 14))
 		}
+		m.outStore = r1.Chance(1, 4)
 		sel = append(sel, m)
 	}
 	for i, m := range sel {
@@ -1346,6 +1404,7 @@ func main() {
 	for _, m := range cfgs {
 		for k := 0; k < perCfg; k++ {
 			c := randSmallRequest(r2, m)
+			c.outStore = k%3 == 2
 			if k < perCfg/2 && uint64(c.start) < m.out { // half of them above the output module's initial block
 				c.start = int64(m.out) + int64(r2.Intn(int(17-m.out)))
 				if c.stop != 0 && c.stop <= uint64(c.start) {
@@ -1386,6 +1445,7 @@ func main() {
 		default:
 			c = randEdgeCase(r6)
 		}
+		c.outStore = false // Request.Validate admits only mapper outputs on the tier-1 endpoint (and its cached-output reader panics on a store)
 		doTier1(c)
 	}
 	keys := make([]string, 0, len(out.Dist))
